@@ -44,5 +44,18 @@ CraftOK(key, rk, i, dec, tg) == LET st == Fwd(BlockWords(CraftRec(key, rk, i, de
 ASSUME \A kq \in 1..Len(CraftKeys), i \in 0..31, dec \in BOOLEAN, tq \in 1..Len(Targets) :
           (kq = 1 \/ tq = 1) => /\ CraftOK(CraftKeys[kq], KeySchedule(CraftKeys[kq]), i, dec, Targets[tq])
                                 /\ PrintT(<<"PLAN", ToJson(CraftRec(CraftKeys[kq], KeySchedule(CraftKeys[kq]), i, dec, Targets[tq]))>>)
+\* ---- crafted KEYS: the key-schedule transform T' of ONE chosen round receives a special word (the key-schedule state of that round is
+\*      chosen and run backwards to the master key) ----
+KState(i, tg) == << CKLit[((i + 3) % 32) + 1], CKLit[((i + 9) % 32) + 1], CKLit[((i + 14) % 32) + 1],
+                    X4(CKLit[((i + 9) % 32) + 1], CKLit[((i + 14) % 32) + 1], CKLit[i + 1], tg) >>        \* (K_i, K_i+1, K_i+2, K_i+3) with K_i+1 ^ K_i+2 ^ K_i+3 ^ CK_i = tg
+RECURSIVE KBack(_, _)
+KBack(k, j) == IF j = 0 THEN k ELSE KBack(<< WXor(k[4], TK(X4(k[1], k[2], k[3], CKLit[j]))), k[1], k[2], k[3] >>, j - 1)
+KeyOf(k0) == WBytes(WXor(k0[1], FKLit[1])) \o WBytes(WXor(k0[2], FKLit[2])) \o WBytes(WXor(k0[3], FKLit[3])) \o WBytes(WXor(k0[4], FKLit[4]))
+CraftKey(i, tg) == KeyOf(KBack(KState(i, tg), i))
+\* self-check: the schedule of the crafted key feeds tg to T' in round i  (rk_i = K_i+4; the T' input of round i is K_i+1 ^ K_i+2 ^ K_i+3 ^ CK_i)
+KFwd(key, i) == LET rk == KeySchedule(key) IN
+                LET kk == [q \in 1..36 |-> IF q <= 4 THEN WXor(BlockWords(key)[q], FKLit[q]) ELSE rk[q - 4]] IN X4(kk[i + 2], kk[i + 3], kk[i + 4], CKLit[i + 1])
+ASSUME \A i \in 0..31, tq \in 1..2 : /\ KFwd(CraftKey(i, Targets[tq]), i) = Targets[tq]
+                                      /\ PrintT(<<"PLAN", ToJson([kind |-> "craftkey", key |-> CraftKey(i, Targets[tq]), round |-> i])>>)
 Emit == seq # <<>> => PrintT(<<"PLAN", ToJson([seq |-> seq])>>)
 =============================================================================
